@@ -99,7 +99,7 @@ impl<'tcx> Cx<'tcx> {
     fn res_j(&self, res: Res) -> J {
         match res {
             Res::Def(kind, did) => {
-                let mut o = J::obj().fs("def", def_path(self.tcx, did)).fs("dk", format!("{:?}", kind_short(kind)));
+                let mut o = J::obj().fs("def", def_path(self.tcx, did)).fs("dk", kind_short(kind));
                 // constructor -> the variant / struct it builds
                 if let DefKind::Ctor(..) = kind {
                     let parent = self.tcx.parent(did);
@@ -226,7 +226,7 @@ impl<'tcx> Cx<'tcx> {
             hir::PatKind::Box(x) => base.fs("k", "Box").f("pat", self.pat(x)),
             hir::PatKind::Deref(x) => base.fs("k", "Deref").f("pat", self.pat(x)),
             hir::PatKind::Ref(x, _, _) => base.fs("k", "Ref").f("pat", self.pat(x)),
-            hir::PatKind::Expr(pe) => base.fs("k", "Lit").f("e", self.pat_expr(pe)),
+            hir::PatKind::Expr(pe) => base.fs("k", "PLit").f("e", self.pat_expr(pe)),
             hir::PatKind::Guard(x, g) => base.fs("k", "Guard").f("pat", self.pat(x)).f("guard", self.expr(g)),
             hir::PatKind::Range(lo, hi, end) => base
                 .fs("k", "Range")
